@@ -96,6 +96,69 @@ def main():
                        ("" if text.endswith(";") else rng.choice([" ", "\n", "  \n\n", "\t"]))
             cases.append({"mode": "C15", "tokens": lang.strip(ts), "text": text, "consts": [], "declare": ["x", "y"],
                           "phi": phi, "data": data, "online": online and fac != "ltl_offline", "factory": fac, "group": i, "variant": k})
+    # "phi unless[a,b] psi equals always[0,b] phi or phi until[a,b] psi" when the bounds are written with units: every way of putting
+    # units on the two bounds (both / end only / begin only / none, s ms us), default unit s or ms, sampling period 1 s .. 250 us;
+    # the sugar and its expansion (the always-part with the resolved unit on both bounds) side by side (seeds C15-g, C08-g)
+    import copy, c08 as _c08
+    from cases import dt_obj, ev_parse, ev_pastify, ev_evaluate, ev_update, case, sample_at
+    ucases = []
+    for i in range(150 if quick else 2500):
+        g = Gen(rng, vars_=("x", "y"), S=1, ops=["not", "and", "or", "onceT", "once"], ivs=[(0, 1), (1, 2)], bool_atoms=False)
+        p_, q_ = g.formula(rng.choice([0, 0, 1])), g.formula(rng.choice([0, 0, 1]))
+        a_ = rng.choice([0, 1, 2]); b_ = a_ + rng.choice([0, 1, 2, 3])
+        sugar = bi("unlessT", p_, q_, a_, b_)
+        expan = bi("or", un("alwT", copy.deepcopy(p_), 0, b_), bi("untilT", copy.deepcopy(p_), copy.deepcopy(q_), a_, b_))
+        if rng.random() < 0.3:
+            ctx = rng.choice([lambda f: un("not", f), lambda f: bi("and", f, pred("ge", var("x"), const(0))), lambda f: un("evT", f, 0, 1)])
+            sugar, expan = ctx(sugar), ctx(expan)
+        pnum, punit = rng.choice([(1, "s"), (500, "ms"), (2, "ms"), (250, "us"), (1, "ms"), (2, "s")])
+        period_ns = pnum * 10 ** _c08.E[punit]
+        default = rng.choice(["s", "ms", "s"])
+        w1, _st = _c08.write_ast(rng, sugar, period_ns, default)
+        w2 = copy.deepcopy(expan)
+        qs = [q for q in subformulas(w1) if q["op"] == "unlessT"][0]
+        rest1 = [q for q in subformulas(w1) if q["op"] in TIMED and q["op"] != "unlessT"]
+        ub_res = qs["bu"] or qs["au"] or default
+        sp = {k_: qs[k_] for k_ in ("aw", "bw", "au", "bu", "at", "bt", "fa", "fb")}
+        for q in subformulas(w2):
+            if q["op"] == "untilT" and "aw" not in q:
+                q.update(sp)
+        # the always-part and the other timed nodes, in document order: copy the spellings of the sugar's other nodes by position
+        alw = [q for q in subformulas(w2) if q["op"] == "alwT" and "aw" not in q and q["a"] == 0 and q["b"] == b_]
+        others2 = [q for q in subformulas(w2) if q["op"] in TIMED and "aw" not in q and not any(q is a__ for a__ in alw[:1])]
+        if not alw:
+            continue
+        alw[0].update({"aw": [0, 1], "bw": qs["bw"], "au": ub_res, "bu": ub_res, "at": "0", "bt": qs["bt"], "fa": "0", "fb": qs["fb"]})
+        # remaining timed nodes (inside p, q, the context): spelled unit-less in the default unit on both sides
+        def plain(q):
+            f_ = lambda k_: _c08.Fraction(k_ * period_ns, 10 ** _c08.E[default])
+            fa, fb = f_(q["a"]), f_(q["b"])
+            q.update({"aw": [fa.numerator, fa.denominator], "bw": [fb.numerator, fb.denominator], "au": default, "bu": default,
+                      "at": _c08.lit_text(rng, fa), "bt": _c08.lit_text(rng, fb), "fa": str(float(fa)), "fb": str(float(fb))})
+        for q in rest1 + others2:
+            plain(q)
+        if any((_c08.Fraction(*q["aw"]) * 1000).denominator != 1 or (_c08.Fraction(*q["bw"]) * 1000).denominator != 1 for q in subformulas(w1) + subformulas(w2) if q["op"] in TIMED):
+            continue
+        units = {"def": default, "pnum": pnum, "pden": 1, "punit": punit}
+        objs = [dt_obj(f_, 1, ["x", "y"], text="out = " + to_text(w_, 1), written=w_, units=units, unit=default, set_period=[pnum, punit, 0.1], styles=[])
+                for f_, w_ in ((sugar, w1), (expan, w2))]
+        h = horizon(sugar)
+        kind = rng.choice(["off", "off", "past"])
+        N = rng.choice([2, 3, 5, 8]) + (h if kind == "past" else 0)
+        wd_ = {v: [rng.randint(-4, 4) for _ in range(N)] for v in ("x", "y")}
+        if kind == "off":
+            evs = [ev_parse(1), ev_parse(2), ev_evaluate(range(N), wd_, 1), ev_evaluate(range(N), wd_, 2)]
+            rels = [{"rel": "same_off", "x": 1, "y": 2}]
+        else:
+            evs = [ev_parse(1), ev_parse(2), ev_pastify(1), ev_pastify(2)]
+            for t in range(N):
+                evs += [ev_update(t, sample_at(wd_, t), 1), ev_update(t, sample_at(wd_, t), 2)]
+            rels = [{"rel": "same_on_from", "x": 1, "y": 2, "k": h + 1}]
+        ucases.append(case(objs, evs, rels, skip=["evaluate.viol", "update.viol"], timeout=8))
+    utr = runner.run_cases(ucases)
+    uvs, ugen, udist = core.validate("C15_units", utr)
+    rep.add_traces(utr, uvs, ugen, udist, nontrivial_key=lambda c: str([o["text"] for o in c["objs"]]) + str(c["events"][-1].get("w", c["events"][-1].get("s"))))
+    rep.extra["unless_with_units_cases"] = len(ucases)
     out = runner.run_text_cases(cases)
     ref = {}
     for c in out:
